@@ -35,17 +35,17 @@ type edit struct {
 }
 
 type fileEdits struct {
-	path  string
-	src   []byte
-	edits []edit
+	path       string
+	src        []byte
+	edits      []edit
 	keepImport []string // imports whose only uses may have been rewritten away
 }
 
 var (
-	mode    = flag.String("mode", "maps", "maps|sched|steps")
-	repo    = flag.String("repo", "/repo", "repository root")
-	outDir  = flag.String("out", "", "output directory")
-	modfile = flag.String("modfile", "", "alternative go.mod (scratch copies)")
+	mode      = flag.String("mode", "maps", "maps|sched|steps")
+	repo      = flag.String("repo", "/repo", "repository root")
+	outDir    = flag.String("out", "", "output directory")
+	modfile   = flag.String("modfile", "", "alternative go.mod (scratch copies)")
 	engineDir = flag.String("engine", "/verif/engine", "engine module directory (packages are resolved from there)")
 	verifDir  = flag.String("verif", "/verif", "verification tree root")
 )
@@ -115,6 +115,10 @@ func main() {
 			case "sched":
 				sites = append(sites, instrMaps(p, f, fe, inRepo)...)
 				instrYield(p, f, fe)
+				if inRepo {
+					instrSync(p, f, fe)
+					instrGlobals(p, f, fe)
+				}
 			case "steps":
 				gonum := strings.HasPrefix(p.PkgPath, "gonum.org/")
 				if gonum || (inRepo && p.PkgPath != repoMod+"/gen") {
@@ -396,6 +400,132 @@ func instrYield(p *packages.Package, f *ast.File, fe *fileEdits) {
 }
 
 // instrSteps inserts rt.Step() at function entry and at the top of loop bodies.
+// instrSync: `import "sync"` in a repository file becomes `import sync "verif/vsync"`: mutexes, Once and Pool of the
+// repository's own code report to the cooperative scheduler (a real mutex held by a descheduled thread would stall it).
+func instrSync(p *packages.Package, f *ast.File, fe *fileEdits) {
+	for _, is := range f.Imports {
+		if is.Path.Value != `"sync"` {
+			continue
+		}
+		s, e := p.Fset.Position(is.Path.Pos()).Offset, p.Fset.Position(is.Path.End()).Offset
+		text := `"verif/vsync"`
+		if is.Name == nil {
+			text = `sync "verif/vsync"`
+		}
+		fe.edits = append(fe.edits, edit{pos: s, end: e, text: text})
+	}
+}
+
+// instrGlobals appends to a repository file an init function that registers, with the harness, a function restoring every
+// package-level variable of the file to its initial value (its initialiser re-evaluated, or the zero value). The harness
+// calls the registered functions wherever it returns the parser caches to their initial state: before every controlled
+// execution and every history replay. State a change adds at package level (a memo, a pool, a lazily filled table) is then
+// owned like the ANTLR caches - every execution starts from a fresh process state, replays are deterministic, and what
+// such state does to results shows as a result, not as a replay divergence. Variables of type error or of a function
+// type (sentinels), blank variables and variables assigned inside an init function are left alone.
+func instrGlobals(p *packages.Package, f *ast.File, fe *fileEdits) {
+	initAssigned := map[types.Object]bool{}
+	for _, file := range p.Syntax {
+		for _, d := range file.Decls {
+			fd, ok := d.(*ast.FuncDecl)
+			if !ok || fd.Recv != nil || fd.Name.Name != "init" || fd.Body == nil {
+				continue
+			}
+			ast.Inspect(fd.Body, func(n ast.Node) bool {
+				mark := func(e ast.Expr) {
+					for {
+						switch x := e.(type) {
+						case *ast.Ident:
+							if o := p.TypesInfo.Uses[x]; o != nil {
+								initAssigned[o] = true
+							}
+							return
+						case *ast.SelectorExpr:
+							e = x.X
+						case *ast.IndexExpr:
+							e = x.X
+						case *ast.StarExpr:
+							e = x.X
+						case *ast.ParenExpr:
+							e = x.X
+						default:
+							return
+						}
+					}
+				}
+				switch x := n.(type) {
+				case *ast.AssignStmt:
+					for _, l := range x.Lhs {
+						mark(l)
+					}
+				case *ast.IncDecStmt:
+					mark(x.X)
+				}
+				return true
+			})
+		}
+	}
+	text := func(n ast.Node) string {
+		return string(fe.src[p.Fset.Position(n.Pos()).Offset:p.Fset.Position(n.End()).Offset])
+	}
+	var body strings.Builder
+	for _, d := range f.Decls {
+		gd, ok := d.(*ast.GenDecl)
+		if !ok || gd.Tok != token.VAR {
+			continue
+		}
+		for _, sp := range gd.Specs {
+			vs := sp.(*ast.ValueSpec)
+			skip := false
+			for _, n := range vs.Names {
+				o := p.TypesInfo.Defs[n]
+				if n.Name == "_" || o == nil || initAssigned[o] {
+					skip = true
+					break
+				}
+				switch t := o.Type().Underlying().(type) {
+				case *types.Signature:
+					skip = true
+				case *types.Interface:
+					if types.Identical(o.Type(), types.Universe.Lookup("error").Type()) {
+						skip = true
+					}
+					_ = t
+				}
+			}
+			if skip {
+				continue
+			}
+			var names []string
+			for _, n := range vs.Names {
+				names = append(names, n.Name)
+			}
+			if len(vs.Values) > 0 {
+				var vals []string
+				for _, v := range vs.Values {
+					vals = append(vals, text(v))
+				}
+				if vs.Type != nil && len(vs.Values) == len(vs.Names) {
+					for i := range names {
+						fmt.Fprintf(&body, "\t\t{ var verifZ %s = %s; %s = verifZ }\n", text(vs.Type), vals[i], names[i])
+					}
+				} else {
+					fmt.Fprintf(&body, "\t\t%s = %s\n", strings.Join(names, ", "), strings.Join(vals, ", "))
+				}
+			} else {
+				for _, n := range names {
+					fmt.Fprintf(&body, "\t\t{ var verifZ %s; %s = verifZ }\n", text(vs.Type), n)
+				}
+			}
+		}
+	}
+	if body.Len() == 0 {
+		return
+	}
+	fe.edits = append(fe.edits, edit{pos: len(fe.src), end: len(fe.src),
+		text: "\n\nfunc init() {\n\tverifrt.RegisterReset(func() {\n" + body.String() + "\t})\n}\n"})
+}
+
 func instrSteps(p *packages.Package, f *ast.File, fe *fileEdits) {
 	ins := func(b *ast.BlockStmt) {
 		if b == nil {
